@@ -169,6 +169,9 @@ func guardedBy(r *R, rule string, specs []guardSpec, outOfScope map[string]strin
 				if lk, isLocked := lockedCallees[name]; isLocked && lk == sp.Lock {
 					continue // checked at call sites below
 				}
+				if callersHold(p, a.fn, sp.Lock, a.write && sp.WriteNeedsW, 3) {
+					continue // every call of this function is made with the lock held
+				}
 				kind := "read"
 				if a.write {
 					kind = "written"
@@ -188,6 +191,9 @@ func guardedBy(r *R, rule string, specs []guardSpec, outOfScope map[string]strin
 					}
 					if !good {
 						if lk, isLocked := lockedCallees[name]; isLocked && lk == sp.Lock {
+							continue
+						}
+						if callersHold(p, a.fn, sp.Lock, mo.write, 3) {
 							continue
 						}
 						bad = append(bad, fmt.Sprintf("map %s %s in %s without holding %s%s", key, map[bool]string{true: "mutated", false: "read"}[mo.write], name, sp.Lock, map[bool]string{true: " for writing", false: ""}[mo.write]))
@@ -277,4 +283,81 @@ func atomicOnly(r *R, rule, owner, field string) {
 	if n == 0 {
 		r.c.Stuck(rule, "atomic:"+owner+"."+field, "", "no access found outside constructors")
 	}
+}
+
+// callersHold reports whether fn runs only with lock held: it is a named
+// function that is never used as a value, and every one of its (static) call
+// sites is in a region holding the lock (for writing when w), or in a function
+// for which the same is true.
+func callersHold(p *core.Prog, fn *ssa.Function, lock string, w bool, depth int) bool {
+	if fn.Parent() != nil || depth == 0 || usedAsValue(p, fn) {
+		return false
+	}
+	callers := p.Callers(core.ShortFn(fn))
+	if len(callers) == 0 {
+		return false
+	}
+	for cf, ss := range callers {
+		for _, s := range ss {
+			if s.Common().StaticCallee() != fn {
+				return false
+			}
+			held := lockRegions(p, cf)[s.(ssa.Instruction)]
+			ok := held.holds(lock)
+			if ok && w && !held[lock+"/W"] {
+				ok = false
+			}
+			if !ok && !callersHold(p, cf, lock, w, depth-1) {
+				return false
+			}
+		}
+	}
+	return true
+}
+
+var usedAsValueCache = map[*core.Prog]map[*ssa.Function]bool{}
+var dynNames = map[string]bool{}
+
+// usedAsValue: the function is referenced other than as the callee of a call
+// (method value, stored in a struct, passed as a callback, go/defer).
+func usedAsValue(p *core.Prog, fn *ssa.Function) bool {
+	m := usedAsValueCache[p]
+	if m == nil {
+		m = map[*ssa.Function]bool{}
+		usedAsValueCache[p] = m
+		for f := range p.AllFuncs {
+			if !p.InProd(f) && f.Synthetic == "" {
+				continue
+			}
+			for _, b := range f.Blocks {
+				for _, ins := range b.Instrs {
+					var callee ssa.Value
+					if ci, ok := ins.(ssa.CallInstruction); ok {
+						if ci.Common().IsInvoke() {
+							dynNames[ci.Common().Method.Name()] = true
+						} else {
+							callee = ci.Common().Value
+						}
+					}
+					if mc, ok := ins.(*ssa.MakeClosure); ok {
+						if g, ok := mc.Fn.(*ssa.Function); ok && g.Synthetic != "" {
+							m[core.Unwrap(g)] = true // method value / thunk
+						}
+					}
+					for _, op := range ins.Operands(nil) {
+						if op == nil || *op == nil {
+							continue
+						}
+						if g, ok := (*op).(*ssa.Function); ok && *op != callee {
+							m[core.Unwrap(g)] = true
+						}
+					}
+				}
+			}
+		}
+	}
+	if dynNames[fn.Name()] && fn.Signature.Recv() != nil {
+		return true // may be reached through an interface
+	}
+	return m[fn]
 }
